@@ -220,13 +220,45 @@ def run(ctx):
                 else:
                     ctx.fail("C12-R4", cb.path, "switch value", "per-label switch is %s, expected !gv_off_context.test(label)" % s[:160], cb.loc())
                     okk = None
+        eb = ExprBuilder(mg)
+        loop_form = False
+        if okk is False:
+            # loop form: for label in self.labels.iter() { let sw = !off.test(label);
+            #   v.extend(repeat(sw).take(num_states))   or   for _ in 0..num_states { v.push(sw) } }
+            import re as _re
+            for bb, t in mg.calls():
+                c = t["callee"]
+                nm = cm.callee_name(c) if c["k"] == "fndef" else ""
+                grow = None
+                if nm.endswith("Extend<T>>::extend") and len(t["args"]) == 2:
+                    a = eb.at(bb).op(t["args"][1])
+                    if a[0] == "call" and a[1].endswith("Iterator::take") and a[2][0][0] == "call" and a[2][0][1].endswith("iter::repeat"):
+                        grow = (a[2][0][2][0], show(a[2][1]), [])
+                elif nm.endswith("Vec::<T, A>::push") and len(t["args"]) == 2 and (c.get("args") or [""])[0] == "bool":
+                    rng = [g for g in paths.guards(mg, bb, eb) if g[0] == "some" and "Range" in show(g[1])[:80]]
+                    if len(rng) == 1:
+                        m = _re.search(r"Range\{start: 0, end: (.*?)\}\)$", show(rng[0][1]))
+                        grow = (eb.at(bb).op(t["args"][1]), m.group(1) if m else "?", rng)
+                if grow is None:
+                    continue
+                val, count, rng = grow
+                sv = show(val)
+                gs = [g for g in paths.guards(mg, bb, eb) if g not in rng and not (g[0] in ("true", "false") and show(g[1]).endswith(".use_gv")) and not (g[0] in ("some", "ok") and "first(" in show(g[1]))]
+                plain = len(gs) == 1 and gs[0][0] == "some" and _re.match(r"^<std::slice::Iter<'a, T> as std::iter::Iterator>::next\(self\.labels\)$", show(gs[0][1]))
+                if sv.startswith("Not(model::voice::question::Question::test(") and "gv_off_context" in sv and count.endswith("num_states") and plain:
+                    okk = True
+                    loop_form = True
+                else:
+                    okk = None
+                    ctx.fail("C12-R4", mg.path, "switch value", "per-label switch group is %s x %s under guards %s; expected !gv_off_context.test(label) x num_states for every label" % (sv[:100], count[-40:], [show(g[1])[:60] for g in gs]), cm.loc_of(t["span"]))
         if okk:
             ctx.ok("C12-R4", "Models::gv: switch = [!gv_off_context.test(label)] repeated num_states per label", mg.loc())
         elif okk is False:
             ctx.fail("C12-R4", mg.path, "switch", "no per-label repeated switch found", mg.loc())
-        eb = ExprBuilder(mg)
         txt = " ".join(show(eb.call(t)) for bb, t in mg.calls())
-        if "flat_map" in txt and "self.labels" in txt and not any(k in txt for k in ("::skip(", "::take(", "::filter(", "::rev(")):
+        if loop_form:
+            ctx.ok("C12-R4", "Models::gv: one switch group per label, in label order (plain loop over self.labels)", mg.loc())
+        elif "flat_map" in txt and "self.labels" in txt and not any(k in txt for k in ("::skip(", "::take(", "::filter(", "::rev(")):
             ctx.ok("C12-R4", "Models::gv: one switch group per label, in label order", mg.loc())
         else:
             ctx.fail("C12-R4", mg.path, "label pipeline", "the switch vector is not a plain flat_map over the labels", mg.loc())
